@@ -185,8 +185,8 @@ class Guards:
             return False
         dl = t["discr"]["place"]["local"]
         for s in b["stmts"]:
-            if s["k"] == "assign" and s["place"]["local"] == dl and s["rv"]["k"] == "discr" and not s["rv"]["place"]["proj"]:
-                ty = self.fn.local_ty(s["rv"]["place"]["local"])
+            if s["k"] == "assign" and s["place"]["local"] == dl and s["rv"]["k"] == "discr":
+                ty = self.fn.place_ty(s["rv"]["place"]) or {}
                 if ty.get("k") == "adt":
                     a = ty.get("adt", "")
                     if a.endswith(("option::Option", "result::Result", "ops::ControlFlow")):
